@@ -416,6 +416,12 @@ def presents (cookie : C) (auth : AuthSt D) (i : In D) : Prop :=
   | .client (.waitingAck _ _ _ _ ours e), .frame (.auth (.serverAck dg)) => dg = e ∧ e = H cookie ours
   | _, _ => False
 
+/-- The digest an input carries, if it is one of the two handshake messages that carry one. -/
+def digestOf : In D → Option D
+  | .frame (.auth (.clientChallenge _ dg)) => some dg
+  | .frame (.auth (.serverAck dg)) => some dg
+  | _ => none
+
 /-- The session's life: states and effects after each input. -/
 def run (cfg : Cfg C) (st : SState D) : List (Env × In D) → List (SState D × List (Effect D))
   | [] => []
